@@ -31,7 +31,7 @@ BASES = ["item", "itemList", "item_list", "box", "boxed", "node", "tree", "point
 # out of the random stream (the fixed witnesses exercise them); near misses that DO compile stay in.
 FIELD_NAMES = ["a", "b", "id", "name", "value", "flags", "fields_mask", "read", "write", "rEset", "readBoxed", "x_y", "xY",
                "type", "len", "n", "data", "next", "items", "key", "tl", "basictl", "item", "w", "err", "tlName",
-               "set", "isSet", "clear", "readTL2", "writeTL2", "write_JSON", "calculateLayout", "func", "range", "go"]
+               "set", "isSet", "clear", "readTL2", "writeTL2", "write_JSON", "func", "range", "go"]
 PRIMS = ["int", "long", "string", "double", "float", "#", "Bool", "int", "string"]
 
 
